@@ -430,6 +430,8 @@ impl SyntaxTemplate {
                 while let Some(item) =
                     Self::substitude_ellipsis_item(sub_template, substitutions, suffix_item_index)?
                 {
+                    #[cfg(ruschm_verif)]
+                    crate::verif_hooks::step()?;
                     suffix_item_index += 1;
                     result.push(item)
                 }
